@@ -1,2 +1,73 @@
-(* C18/Spec.v — placeholder, completed below *)
+(* C18/Spec.v — the property's own words: no batches, no padded tables, no accumulators.
+   Everything is read directly from the full kernel matrix K (n x n). *)
 From Xpl Require Export C18.Model.
+Open Scope Qc_scope.
+
+(* K is a symmetric n x n matrix (kernel functions are symmetric) *)
+Definition symmetric (K : list (list Qc)) (n : nat) : Prop :=
+  forall r c, (r < n)%nat -> (c < n)%nat -> kent K r c = kent K c r.
+
+(* dense column sums / means and diagonal of the kernel matrix *)
+Definition colsum (K : list (list Qc)) (n c : nat) : Qc := qsum (map (fun r => kent K r c) (seq 0 n)).
+Definition colmean (K : list (list Qc)) (n c : nat) : Qc := colsum K n c / qn n.
+Definition dense_col_means (K : list (list Qc)) (n : nat) : list Qc := map (colmean K n) (seq 0 n).
+Definition dense_diag (K : list (list Qc)) (n : nat) : list Qc := map (fun c => kent K c c) (seq 0 n).
+
+(* a (nb, b) table is the row-major cut of a flat vector, zero padded *)
+Definition table_of (bs : nat) (v : list Qc) : list (list Qc) := pad_last bs (chunks bs v).
+
+(* ---- first maximiser of a list of (candidate, value): the documented greedy choice, first index on ties *)
+Fixpoint first_max {A} (l : list (A * Qc)) : option (A * Qc) :=
+  match l with
+  | [] => None
+  | x :: r => match first_max r with
+              | None => Some x
+              | Some y => if Qcltb (snd x) (snd y) then Some y else Some x
+              end
+  end.
+
+(* what it means: a maximiser, and strictly better than everything before it *)
+Definition is_first_max {A} (l : list (A * Qc)) (x : A * Qc) : Prop :=
+  exists l1 l2, l = l1 ++ x :: l2 /\ (forall y, In y l1 -> snd y < snd x) /\ (forall y, In y l2 -> snd y <= snd x).
+
+(* ---- dense greedy selection (dataset positions), for any objective of the family the code uses *)
+Definition submat (K : list (list Qc)) (S : list nat) : list (list Qc) :=
+  map (fun i => map (fun j => kent K i j) S) S.
+Definition dense_value (obj : objective) (K : list (list Qc)) (n : nat) (S : list nat) (c : nat) : Qc * list Qc :=
+  obj (kent K c c) (colmean K n c) (map (colmean K n) S) (map (fun s => kent K c s) S) (submat K S).
+Definition dense_candidates (n : nat) (S : list nat) : list nat :=
+  filter (fun c => negb (existsb (Nat.eqb c) S)) (seq 0 n).
+Definition dense_step (obj : objective) (K : list (list Qc)) (n : nat) (S : list nat) : list nat :=
+  match first_max (map (fun c => (c, fst (dense_value obj K n S c))) (dense_candidates n S)) with
+  | Some (c, _) => S ++ [c]
+  | None => S
+  end.
+Definition dense_select (obj : objective) (K : list (list Qc)) (n np : nat) : list nat :=
+  Nat.iter np (dense_step obj K n) [].
+
+(* ---- documented objectives, written on the full kernel matrix *)
+(* MMDCritic docstring: (2/n) sum_i k(x_i, c) - 1/(|S|+1) [k(c,c) + 2 sum_{j in S} k(x_j, c)] *)
+Definition mmd_documented (K : list (list Qc)) (n : nat) (S : list nat) (c : nat) : Qc :=
+  two / qn n * qsum (map (fun i => kent K i c) (seq 0 n))
+  - (kent K c c + two * qsum (map (fun j => kent K j c) S)) / qn (length S + 1).
+
+(* ProtoGreedy docstring: max_w w^T mu - w^T K w / 2 on S u {c}, at w = max(K^-1 mu, 0) (K regularised by eps) *)
+Definition quad_objective (Ksub : list (list Qc)) (mu w : list Qc) : Qc := dot w mu - half * dot w (matvec Ksub w).
+Definition greedy_documented (eps : Qc) (K : list (list Qc)) (n : nat) (S : list nat) (c : nat) : Qc :=
+  let T := S ++ [c] in
+  let mu := map (colmean K n) T in
+  quad_objective (submat K T) mu (opt_weights eps (submat K T) mu).
+
+(* weights: non-negative, summing to one *)
+Definition weights_ok (w : list Qc) : Prop := (forall x, In x w -> 0 <= x) /\ qsum w = 1.
+
+(* ---- executable link Model = Spec, evaluated on every generated case by the correspondence check
+   (a TEST of the two statements that are not proved in Proofs.v: colmeans_triangular and
+   greedy_batch_invariant): the padded tables are the row-major cut of the dense column means / diagonal, and the
+   batched selection is the dense greedy selection with first-index tie-breaking *)
+Definition check_spec (m : method) (eps : Qc) (K : list (list Qc)) (bs np : nat) : bool :=
+  let n := length K in
+  qlist2_eqb (col_means_table K bs n) (table_of bs (dense_col_means K n))
+  && qlist2_eqb (diag_table K bs n) (table_of bs (dense_diag K n))
+  && list_eqb Nat.eqb (map (flat_idx bs) (fst (find_prototypes m eps K bs np)))
+                      (dense_select (method_obj eps m) K n np).
